@@ -337,7 +337,8 @@ def emptyArr (c : Cfg) (a : AllocId) : Arr := ⟨a, none, emptyExts c.dim, 0⟩
     object does not run).  `fx6`: the body is wrapped in `try { … } catch(...) { deallocate(); throw; }`. -/
 def build (c : Cfg) (a : AllocId) (n : Nat) (construct : Bool) (rowLen : Nat := 0) : M (Option Nat) := do
   let p ← allocate a n
-  let body := if rowLen = 0 then constructAll c p n else constructRows c p n rowLen
+  -- fx6 also adds the missing rollback of completed rows to the nested `uninitialized_copy` (array_ref.hpp:3770-3780)
+  let body := if rowLen = 0 || c.fx6 then constructAll c p n else constructRows c p n rowLen
   if construct then
     if c.fx6 then tryCatch body (do deallocate c a p n; rethrow)
     else body
@@ -616,14 +617,18 @@ def sliceOk (x : Arr) (sl : Option (Int × Int)) : Bool :=
   | some _, [] => false
   | none, _ => true
 
-def Op.applicable (s : St) : Op → Bool
+def Op.applicable (c : Cfg) (s : St) : Op → Bool
   | .ctorDefault i _ | .ctorExt i _ _ | .ctorFill i _ _ => !alive s i
   | .ctorCopy i j | .ctorCopyA i j _ | .ctorMove i j | .ctorMoveA i j _ => !alive s i && alive s j
   | .ctorView i j _ sl => !alive s i && (match getArr s j with | some y => sliceOk y sl | none => false)
   | .ctorRange i j _ => !alive s i && (match getArr s j with | some y => decide (1 ≤ headSize y) | none => false)
   | .dtor i | .clear i | .reextent i _ | .reextentFill i _ | .reextentRv i _ => alive s i
   | .reshape i es => match getArr s i with | some x => nElems es == x.n | none => false
-  | .assignCopy i j | .assignMove i j | .swap i j => alive s i && alive s j
+  | .assignCopy i j | .assignMove i j => alive s i && alive s j
+  | .swap i j =>   -- swapping unequal non-propagating allocators is undefined (as for standard containers): excluded
+    match getArr s i, getArr s j with
+    | some x, some y => c.pocs || c.eqv x.alloc y.alloc
+    | _, _ => false
   | .assignView i j sl _ => i != j && alive s i && (match getArr s j with | some y => sliceOk y sl | none => false)
   | .assignRange i j =>
     i != j && (match getArr s i, getArr s j with
